@@ -619,3 +619,15 @@ Definition invocation_drops_cancel_timer (l : list (string * string * bool)) : b
 
 Definition bad_invocation_drops (l : list (string * string * bool)) : list (string * string) :=
   map fst (filter (fun t => negb (snd t)) l).
+
+(** Two more three-valued readings of dealer.go ([None] = undecided, counts as
+    not broken): the first attempt of a final YIELD stops the call's timeout
+    timer also on the path that asks for a retry ([stop] of
+    [Conc/YieldRetry.v]); [syncCancel] takes its "mode kill: wait for the
+    callee" early return only inside the select case that queued the
+    INTERRUPT ([wait_only_if_sent] of [Conc/CancelModel.v]). *)
+Definition yield_stops_timer_before_retry (o : option bool) : bool :=
+  match o with Some false => false | _ => true end.
+
+Definition cancel_waits_only_if_interrupt_sent (o : option bool) : bool :=
+  match o with Some false => false | _ => true end.
